@@ -32,7 +32,8 @@ def cert? (s : String) : Option Cert :=
     -- m = a near miss (EC: same X, other Y; RSA: one bit of N differs) — not the key;
     -- e = RSA same modulus, other exponent — not the key either (validCert compares modulus and exponent; fixed in ef42413)
     let km ← if m == "m" || m == "e" then some false else bool? m
-    pure ⟨← id.toNat?, ← nb.toInt?, ← na.toInt?, ← bool? host, ← bool? le, ← kt? pub, ← kt? priv, km⟩
+    -- host = the x509 verdict (VerifyHostname), optionally followed by the CommonName / SAN shape the harness builds
+    pure ⟨← id.toNat?, ← nb.toInt?, ← na.toInt?, ← bool? (String.ofList (host.toList.take 1)), ← bool? le, ← kt? pub, ← kt? priv, km⟩
   | _ => none
 
 def cacheVal? (s : String) : Option CacheVal :=
